@@ -99,7 +99,10 @@ def gen_modalities(rng: random.Random, lo: int = 0, hi: int = 2) -> list:
             if r < 0.97:
                 return rng.randint(1, 1023) / 1024.0
             return rng.random()
-        mods.append([nm, sv(), sv(), rng.choice(["clinical", "pathological"])])
+        sp_, sn_ = sv(), sv()
+        if rng.random() < 0.1:
+            sn_ = sp_                      # equal specificity and sensitivity (a coincidence that hides field mix-ups)
+        mods.append([nm, sp_, sn_, rng.choice(["clinical", "pathological"])])
     return mods
 
 
